@@ -17,10 +17,12 @@ pub mod c17_kv;
 #[cfg(not(kani))]
 pub const HARNESSES: &[(&str, fn())] = &[
     ("c02_arity_typed", c02_arity::c02_arity_typed),
+    ("c02_arity_serialized", c09_registry::c02_arity_serialized),
     ("c06_task_abort_a", c06_cancel::c06_task_abort_a),
     ("c06_task_abort_b", c06_cancel::c06_task_abort_b),
     ("c06_command_abort_a", c06_cancel::c06_command_abort_a),
     ("c06_command_abort_b", c06_cancel::c06_command_abort_b),
+    ("c06_aborted_stream_ends", c06_cancel::c06_aborted_stream_ends),
     ("c09_routing_q1", c09_registry::c09_routing_q1),
     ("c09_routing_q2", c09_registry::c09_routing_q2),
     ("c09_routing_t1", c09_registry::c09_routing_t1),
@@ -36,11 +38,13 @@ pub const HARNESSES: &[(&str, fn())] = &[
     ("c17_unwrap_value_ops", c17_kv::c17_unwrap_value_ops),
     ("c17_unwrap_exists_list", c17_kv::c17_unwrap_exists_list),
     ("c17_value_conversions", c17_kv::c17_value_conversions),
-    ("c17_operation_wire_a", c17_kv::c17_operation_wire_a),
-    ("c17_operation_wire_b", c17_kv::c17_operation_wire_b),
-    ("c17_result_wire_roundtrip", c17_kv::c17_result_wire_roundtrip),
     ("c13_capability_executor_a", c13_tasks::c13_capability_executor_a),
     ("c13_capability_executor_b", c13_tasks::c13_capability_executor_b),
+    ("c17_wire_ops_set_empty", c17_kv::c17_wire_ops_set_empty),
+    ("c17_wire_ops_set_bytes", c17_kv::c17_wire_ops_set_bytes),
+    ("c17_wire_ops_set_more", c17_kv::c17_wire_ops_set_more),
+    ("c17_wire_ops_get_list", c17_kv::c17_wire_ops_get_list),
+    ("c17_wire_results", c17_kv::c17_wire_results),
     ("c07_evict_iff", c07_done::c07_evict_iff),
     ("c07_settle_q1", c07_done::c07_settle_q1),
     ("c07_settle_q2", c07_done::c07_settle_q2),
